@@ -261,7 +261,14 @@ func c12Reuse(c *explore.Ctx) {
 		explore.PinSeed(0)
 		pa, pb := explore.Op{Kind: explore.Put, Key: "a"}, explore.Op{Kind: explore.Put, Key: "b"}
 		letters := []explore.Op{pa, pb, {Kind: explore.Delete, Key: "a"}, {Kind: explore.Delete, Key: "b"}, {Kind: explore.Compact}, {Kind: explore.Reopen}}
-		for _, w1 := range [][]explore.Op{{pa}, {pa, pb}, {pa, pb, pa}} {
+		w1s := [][]explore.Op{{pa}, {pa, pb}, {pa, pb, pa}}
+		if x.cfg == "ROLL1" {
+			// nine segments before the first backup: the ids freed by a later compaction are re-created under sequence
+			// ids with two digits - a stale 00001-2.psg left in the destination sorts behind the live 00001-11.psg and
+			// would win when the backup is opened (seed C12-s1)
+			w1s = append(w1s, []explore.Op{pa, pa, pa, pa, pa, pa, pa, pa, pa})
+		}
+		for _, w1 := range w1s {
 			x, w1 := x, w1
 			enumWords(c, letters, x.depth, func(w2 []explore.Op, _ int) bool {
 				if c.Expired() {
